@@ -24,15 +24,23 @@ tvars == <<vars, tid, l>>
 SetOf(s) == { s[i] : i \in DOMAIN s }
 PairsFun(s) == [x \in { s[i][1] : i \in DOMAIN s } |-> s[CHOOSE i \in DOMAIN s : s[i][1] = x][2]]
 AdjFun(s) == [x \in { s[i][1] : i \in DOMAIN s } |-> SetOf(s[CHOOSE i \in DOMAIN s : s[i][1] = x][2])]
+DescOf(x) == [cls |-> x[1], atoms |-> x[2], par |-> x[3]]          \* JSON [cls, [atoms], par]; NoAtom / NoPar as in SMGFigures
+RoleFun(s) == LET B(i) == {s[i][1][1], s[i][1][2]} IN
+              [b \in { B(i) : i \in DOMAIN s } |-> s[CHOOSE i \in DOMAIN s : B(i) = b][2]]
 InstOf(j) == [n1 |-> SetOf(j.n1), n2 |-> SetOf(j.n2), adj1 |-> AdjFun(j.adj1), adj2 |-> AdjFun(j.adj2),
-              lab1 |-> PairsFun(j.lab1), lab2 |-> PairsFun(j.lab2), order |-> j.order]
+              lab1 |-> PairsFun(j.lab1), lab2 |-> PairsFun(j.lab2), order |-> j.order,
+              stereo |-> j.stereo, changes |-> j.changes,
+              st1 |-> { DescOf(j.st1[i]) : i \in DOMAIN j.st1 }, st2 |-> { DescOf(j.st2[i]) : i \in DOMAIN j.st2 },
+              sc1 |-> { <<j.sc1[i][1], DescOf(j.sc1[i][2])>> : i \in DOMAIN j.sc1 },
+              sc2 |-> { <<j.sc2[i][1], DescOf(j.sc2[i][2])>> : i \in DOMAIN j.sc2 },
+              rl1 |-> RoleFun(j.rl1), rl2 |-> RoleFun(j.rl2)]
 StackOf(s) == [k \in DOMAIN s |-> <<s[k][1], SetOf(s[k][2])>>]
 Logged(e) == /\ mapping' = PairsFun(e.state.mapping)
              /\ fr1' = SetOf(e.state.fr1) /\ ex1' = SetOf(e.state.ex1)
              /\ fr2' = SetOf(e.state.fr2) /\ ex2' = SetOf(e.state.ex2)
              /\ stack' = StackOf(e.state.stack)
 
-NoInst == [n1 |-> {}, n2 |-> {}, adj1 |-> <<>>, adj2 |-> <<>>, lab1 |-> <<>>, lab2 |-> <<>>, order |-> <<>>]
+NoInst == [n1 |-> {}, n2 |-> {}, adj1 |-> <<>>, adj2 |-> <<>>, lab1 |-> <<>>, lab2 |-> <<>>, order |-> <<>>] @@ Plain
 TInit == /\ P = NoInst /\ mapping = <<>> /\ fr1 = {} /\ ex1 = {} /\ fr2 = {} /\ ex2 = {}
          /\ stack = <<>> /\ done = FALSE /\ found = <<>> /\ tid = 0 /\ l = 0
 (* fan out: shard pseudo states (tid = -k), then one start state per trace *)
